@@ -303,31 +303,8 @@ func (c *Ctx) deepLeaves(fn *ssa.Function, isRead bool) (out []leaf, ok bool, wh
 				fail("bytes handed to Write are not built by a modelled idiom")
 				continue
 			}
-			for _, sg := range segs {
-				switch sg.kind {
-				case "enc":
-					t := ir.StripConv(sg.v.v).Type()
-					w := int(sg.width.K)
-					name := firstNonEmpty(d.fieldNameOf(sg.v.v, sg.v.fr), "value")
-					if st, isStruct := t.Underlying().(*types.Struct); isStruct && binarySize(t) == w {
-						_ = st
-						structLeaves(name, t, sg.order, false, nil, &out)
-					} else {
-						out = append(out, leaf{id: name, width: w, order: sg.order})
-					}
-				case "bytes", "stream":
-					if sg.width.isConst() {
-						out = append(out, leaf{id: firstNonEmpty(d.fieldNameOf(rootOfSlice(sg.v.v), sg.v.fr), "bytes"), width: int(sg.width.K), order: "-"})
-					} else {
-						out = append(out, leaf{id: firstNonEmpty(d.fieldNameOf(sg.v.v, sg.v.fr), "bytes"), width: -1, order: "-"})
-					}
-				case "zero", "lit":
-					if sg.width.isConst() {
-						out = append(out, leaf{id: "(skipped)", width: int(sg.width.K), order: "-"})
-					} else {
-						fail("a run of constant bytes of variable length")
-					}
-				}
+			if why := d.segLeaves(segs, &out); why != "" {
+				fail(why)
 			}
 		case id == "io.LimitReader" && isRead && si == 0:
 			boundedRun(dval{call, di.fr}, call, d.affine(args[1], di.fr, nil, 0))
@@ -590,4 +567,56 @@ func (c *Ctx) packedRead(d *deepView, call *ssa.Call, fr *frame, bufArg ssa.Valu
 	if pos < end {
 		*out = append(*out, leaf{id: "(skipped)", width: int(end - pos), order: "-"})
 	}
+}
+
+// segLeaves turns a resolved byte sequence into wire leaves.
+func (d *deepView) segLeaves(segs []bseg, out *[]leaf) string {
+	for _, sg := range segs {
+		switch sg.kind {
+		case "enc":
+			t := ir.StripConv(sg.v.v).Type()
+			w := int(sg.width.K)
+			name := firstNonEmpty(d.fieldNameOf(sg.v.v, sg.v.fr), "value")
+			if _, isStruct := t.Underlying().(*types.Struct); isStruct && binarySize(t) == w {
+				structLeaves(name, t, sg.order, false, nil, out)
+			} else {
+				*out = append(*out, leaf{id: name, width: w, order: sg.order})
+			}
+		case "bytes", "stream":
+			if sg.width.isConst() {
+				*out = append(*out, leaf{id: firstNonEmpty(d.fieldNameOf(rootOfSlice(sg.v.v), sg.v.fr), "bytes"), width: int(sg.width.K), order: "-"})
+			} else {
+				*out = append(*out, leaf{id: firstNonEmpty(d.fieldNameOf(sg.v.v, sg.v.fr), "bytes"), width: -1, order: "-"})
+			}
+		case "zero", "lit":
+			if sg.width.isConst() {
+				*out = append(*out, leaf{id: "(skipped)", width: int(sg.width.K), order: "-"})
+			} else {
+				return "a run of constant bytes of variable length"
+			}
+		}
+	}
+	return ""
+}
+
+// bytesLeaves: the wire leaves of the byte slice a function without a stream
+// parameter returns (built with append / AppendUint / a local buffer, possibly
+// in helpers). ok=false if the bytes are not built by a modelled idiom.
+func (c *Ctx) bytesLeaves(fn *ssa.Function) ([]leaf, bool) {
+	rets := ir.Returns(fn)
+	if len(rets) != 1 || len(rets[0].Results) == 0 {
+		return nil, false
+	}
+	d := c.deepViewOf(fn, 4)
+	d.throughFields = true
+	defer func() { d.throughFields = false }()
+	segs, ok := d.byteSeq(rets[0].Results[0], d.root, 0)
+	if !ok {
+		return nil, false
+	}
+	var out []leaf
+	if why := d.segLeaves(segs, &out); why != "" {
+		return nil, false
+	}
+	return out, true
 }
